@@ -1,5 +1,6 @@
 import GoLevel.Model.Table
 import GoLevel.Model.BlockIter
+import GoLevel.Model.FilterSelect
 import GoLevel.Driver.Key
 /-!
 Line-protocol handler for tables (`tbl …`).  The model takes checksum and filter policy as parameters;
@@ -250,6 +251,12 @@ def handleTbl : List String → Option String
     | .ok t =>
       let rs ← ops.mapM (runOp t)
       pure (" ".intercalate rs)
+  | "select" :: fn :: main :: alts =>
+    -- `tbl select <recorded name> <Options.Filter name | -> <AltFilters names…>`: names as plain words
+    let mainN : Option Bytes := if main == "-" then none else some main.toUTF8.toList
+    match FilterSelect.selectName mainN (alts.map (·.toUTF8.toList)) fn.toUTF8.toList with
+    | some _ => pure fn
+    | none => pure "none"
   | ["handles", f, c, file] => do
     let f ← filterById f; let c ← cmpById c; let file ← fromHex file
     match Table.open (mkCfg 0 1 f 0 c) true file with
